@@ -11,14 +11,28 @@ META = dict(
                'identified individuals; an expression type for the composition algebra with an evaluator) + differential correspondence with a '
                'RECORDED PRNG (every draw of the real random.Random is logged and replayed by the model) + direct oracle on the real objects'),
     design_ref='DESIGN.md §5 C14',
-    level_text='',
-    level_note='',
+    level_text=('Theorems (any specification, any valid parents / populations, any PRNG meeting the contract of random.Random, any operator expression): '
+                'selectors return members of their input in the documented number; Uniform and Swap mutation, point-wise (Uniform, Sample, Average, WeightedAverage under '
+                'every where filter), segment-wise (KPoint, Segmented) and permutation (PMX, Order, Cycle) recombination never return a child that is not a valid, aligned '
+                'decision of the specification; every expression built with >> | & + - ^ * ** [] ~ with_prob / Choice / Conditional / for_each / flatten / until_change over '
+                'primitives that are closed is closed (induction on the expression: ALL operator programs), hence every expression over the shipped operators. '
+                'Tie: the real operators run with a recording random.Random; the model replays the recorded draws and must print the same population (identities of surviving '
+                'inputs, every new DNA with the spec address bound to each node, or the same exception class) on every case; a direct oracle (spec.validate, alignment of '
+                'views and node specs, to_json of the inputs unchanged, members / documented count, same seed -> same result) runs on every case.'),
+    level_note=('Closure theorems are partial-correctness statements (a returned child is valid); that the operators do not raise on valid parents is decided by correspondence '
+                'and oracle only (for the permutation crossovers the model validates proposals as from_dict does, so the theorem is named _partial). '
+                '"Never modifies its inputs" and "deterministic function of seed and inputs" are definitional in a pure model: decided by the oracle only '
+                '(pg.to_json of every input incl. metadata and the shape of the input list before/after; two runs with equal seeds compared by value and identity pattern). '
+                'Not modelled: Mersenne Twister (draws are recorded), the iteration order of Python sets of DNAs (recorded as a permutation), float rounding '
+                '(dyadic floats; cases whose averages leave the 1/64 grid are checked by the oracle only), custom decision points, GlobalStateGetter/Setter, scalars schedules.'),
     rule=('a case is (specification, operator expression, population with identities and fitness, recorded draws); distinct by its wire text; '
           'non-trivial when the expression contains a mutator or recombinator and the run draws at least once, or is a selector on a population of >= 2'),
     trusted_base=['extraction: ExtrOcamlBasic only; ocaml/main.ml lexer/printer; cross-checked against vm_compute on a sample',
                   'the recording subclass of random.Random (harness/props/c14.py RecRandom) reports the index / indices / value each call returned',
                   'harness/props/geno_gen.py builds the real DNASpec / DNA objects from the generated descriptions (shared with C11, C12)'],
-    assumptions=[],
+    assumptions=['random.Random contract (Proofs/EvoBase.v rng_ok): choice/randint return an index below n; sample(range(n), k) returns k distinct indices below n; '
+                 'choices returns k indices of non-zero weight; uniform(lo, hi) stays in [lo, hi]; shuffle returns a permutation -- every recorded draw is checked against it',
+                 'weighting functions return non-negative weights (their value spec is Float(min_value=0.0)): hypothesis weights_nonneg of C14_selector_count'],
 )
 
 # ------------------------------------------------------------------------------------------------
@@ -28,34 +42,43 @@ def lib():
   return pg, base, mutators, recombinators, selectors, where
 
 class RecRandom(pyrandom.Random):
-  """random.Random that logs what every call made by the evolution package returned (as indices)."""
+  """random.Random that logs what every call made by the evolution package returned (as indices) and checks each
+  answer against the contract the theorems assume (Proofs/EvoBase.v rng_ok)."""
   def __init__(self, seed):
-    super().__init__(seed); self.log = []; self.depth = 0
+    super().__init__(seed); self.log = []; self.depth = 0; self.checked = 0; self.contract_broken = []
+  def expect(self, ok, what):
+    self.checked += 1
+    if not ok: self.contract_broken.append(what)
   def getrandbits(self, k):            # keeps _randbelow on the getrandbits path although random() is overridden
     return super().getrandbits(k)
   def random(self):
     r = super().random()
-    if not self.depth: self.log.append([3, int(r * 2 ** 53)])
+    if not self.depth:
+      self.log.append([3, int(r * 2 ** 53)]); self.expect(0.0 <= r < 1.0, 'random() = %r' % r)
     return r
   def choice(self, seq):
     n = len(seq)
     if not n: raise IndexError('Cannot choose from an empty sequence')
-    i = self._randbelow(n); self.log.append([0, i]); return seq[i]
+    i = self._randbelow(n); self.log.append([0, i]); self.expect(0 <= i < n, 'choice index %d of %d' % (i, n)); return seq[i]
   def randint(self, a, b):
-    r = super().randint(a, b); self.log.append([0, r - a]); return r
+    r = super().randint(a, b); self.log.append([0, r - a]); self.expect(a <= r <= b, 'randint(%d, %d) = %d' % (a, b, r)); return r
   def choices(self, population, weights=None, *, cum_weights=None, k=1):
     self.depth += 1
     try:
       idx = super().choices(range(len(population)), weights, cum_weights=cum_weights, k=k)
     finally:
       self.depth -= 1
-    self.log.append([1] + list(idx)); return [population[i] for i in idx]
+    self.log.append([1] + list(idx))
+    self.expect(len(idx) == k and all(0 <= i < len(population) and (weights is None or weights[i] != 0) for i in idx), 'choices %r weights %r' % (idx, weights))
+    return [population[i] for i in idx]
   def sample(self, population, k, **kw):
     idx = super().sample(range(len(population)), k, **kw)
-    self.log.append([1] + list(idx)); return [population[i] for i in idx]
+    self.log.append([1] + list(idx))
+    self.expect(len(idx) == k and len(set(idx)) == k and all(0 <= i < len(population) for i in idx), 'sample %r of %d' % (idx, len(population)))
+    return [population[i] for i in idx]
   def shuffle(self, x):
     idx = list(range(len(x))); super().shuffle(idx)
-    self.log.append([1] + idx); x[:] = [x[i] for i in idx]
+    self.log.append([1] + idx); self.expect(sorted(idx) == list(range(len(x))), 'shuffle %r' % idx); x[:] = [x[i] for i in idx]
   def uniform(self, a, b):
     # the real uniform() is a + (b-a)*random(): snapped to the 1/64 grid inside [a, b] so that the model's dyadic floats can carry it
     self.depth += 1
@@ -63,6 +86,7 @@ class RecRandom(pyrandom.Random):
       r = super().uniform(a, b)
     finally:
       self.depth -= 1
+    self.expect(a <= r <= b, 'uniform(%r, %r) = %r' % (a, b, r))
     r = min(max(round(r * 64) / 64.0, a), b)
     self.log.append([2, int(r * 64) if r * 64 == int(r * 64) else None]); return r
 
@@ -336,7 +360,7 @@ def impl_run(spec_t, expr, pop, seed):
       res['out'] = None; res['news'] = [x for x in flat(result) if not any(x is y for y in objs.values())]
   except Exception as e:   # pylint: disable=broad-except
     res['exc'] = e; res['out'] = [0, err_code(e)]; res['tb'] = traceback.format_exc()[-1500:]
-  res['draws'] = rec.log
+  res['draws'] = rec.log; res['contract'] = (rec.checked, rec.contract_broken[:3])
   res['inputs_unchanged'] = (before == json.dumps([pg.to_json(o) for o in objs.values()], sort_keys=True, default=str)
                              and shape_before == repr(shape(inputs, objs)))
   return res
@@ -732,6 +756,10 @@ def run(ctx):
   results = run_jobs(process_case, cases, min(12, os.cpu_count() or 1))
   trs, impl, descr = [], [], []
   inexact = 0
+  checked = sum(r['contract'][0] for r in results); broken = [b for r in results for b in r['contract'][1]]
+  ctx.extra['prng_contract'] = dict(draws_checked=checked, violations=len(broken), rule='every recorded draw satisfies Proofs/EvoBase.v rng_ok')
+  if broken:
+    ctx.broken.append(dict(kind='assumption', name='rng_ok (random.Random contract)', detail=broken[0]))
   for c, r in zip(cases, results):
     for name, key in r['hists']: ctx.hist(name, key)
     case = dict(spec=c['spec'], expr=c['expr'], pop=c['pop'], seed=c['seed'])
@@ -765,7 +793,7 @@ def process_case(c):
            ('draws', min(len(res['draws']), 20)), ('outcome', 'exception:' + type(res['exc']).__name__ if res['exc'] is not None else 'ok')]
   hits = oracle(c['spec'], c['expr'], c['pop'], c['seed'], res=res, determinism=c.get('det', True))
   nt = (any(not n.startswith('selectors.') and n != 'Lambda' for n in names) and len(res['draws']) > 0) or (len(c['pop']) >= 2 and bool(names))
-  return dict(out=res['out'], draws=res['draws'], hits=hits, hists=hists, nontrivial=nt)
+  return dict(out=res['out'], draws=res['draws'], hits=hits, hists=hists, nontrivial=nt, contract=res['contract'])
 
 def run_jobs(fn, jobs, nproc):
   import multiprocessing as mp
